@@ -575,14 +575,18 @@ class Tr:
             self.env = env0
             return pad + f"if {c} then\n{b}\n{pad}else\n{o_}"
         # variables first assigned inside a branch are local to it (a later use is an unknown name and is refused)
-        names = [n for n in self.assigned([st]) if n in self.env]
+        # a variable assigned in BOTH branches is defined after the conditional even if it was not before
+        in_both = [n for n in self.assigned(list(st.body)) if n in self.assigned(list(st.orelse))]
+        names = [n for n in self.assigned([st]) if n in self.env or n in in_both]
         if not names:
             self.err(st, "conditional without effect on the variables defined before it")
-        types = [self.env[n][1] for n in names]
         env0 = dict(self.env)
         b = self.block(list(st.body), ind + 4, lambda: self.state_tuple(names), k_ret)
+        types = [self.env[n][1] for n in names]
         self.env = dict(env0)
         o_ = self.block(list(st.orelse), ind + 4, lambda: self.state_tuple(names), k_ret)
+        if [self.env[n][1] for n in names] != types:
+            self.err(st, "a variable gets different types in the two branches")
         self.env = env0
         self.bind_state(names, types)
         return (pad + f"let {self.pattern(names)} := (if {c} then\n{b}\n{pad}  else\n{o_})\n"
